@@ -63,7 +63,11 @@ Law_Runs      == \A pat \in UNION {[1..n -> BOOLEAN] : n \in 1..MaxLen} :
 Law_Night     == LET H == << << <<1320, 360>> >>, <<>>, <<>>, <<>>, <<>>, <<>>, << <<1320, 360>> >> >> IN
                     /\ OnShiftMW(H, 0, 1320) /\ ~OnShiftMW(H, 0, 1319) /\ OnShiftMW(H, 1, 0) /\ OnShiftMW(H, 1, 359)
                     /\ ~OnShiftMW(H, 1, 360) /\ OnShiftMW(H, 0, 100) /\ ~OnShiftMW(H, 2, 100) /\ OnShiftMW(H, 6, 1400)
-ASSUME Law_RoundTrip /\ Law_Floor /\ Law_Monotone /\ Law_Covers /\ Law_Runs /\ Law_Night
+\* the number of slots that cover a minimum length: enough, and not one more than enough
+Law_MinSlots  == \A g \in Resolutions : \A m \in 1..(3 * g + 2) :
+                    /\ MinSlots(m, g) >= 1 /\ MinSlots(m, g) * g >= m
+                    /\ (MinSlots(m, g) > 1 => (MinSlots(m, g) - 1) * g < m)
+ASSUME Law_RoundTrip /\ Law_Floor /\ Law_Monotone /\ Law_Covers /\ Law_Runs /\ Law_Night /\ Law_MinSlots
 
 (* ------------------------------- recorded calls ------------------------------------ *)
 Err == -999999                 \* how a raised IndexError is logged
